@@ -203,7 +203,9 @@ class SparseKDE(BaseEstimator):
         self._bandwidth_inv_ = None
         self._normkernels_ = None
         self._check_dimension(X)
-        self._grids = X
+        # keep a private copy: the fitted model must not change when the caller reuses
+        # the array it passed to fit
+        self._grids = np.array(X, copy=True)
         grid_dist_mat = self.metric(X, X)
         np.fill_diagonal(grid_dist_mat, np.inf)
         min_grid_dist = np.min(grid_dist_mat, axis=1)
